@@ -157,6 +157,13 @@ func (p *Program) buildSeams() {
 					note(p.seamField, key, &seam{typ: v.Type()})
 					continue
 				}
+				// a parameter of an internal constructor: what every caller passes
+				if prm, isP := v.(*ssa.Parameter); isP {
+					if sm := p.paramSeam(prm, ft, 0); sm != nil {
+						note(p.seamField, key, sm)
+						continue
+					}
+				}
 				note(p.seamField, key, &seam{bad: true})
 			}
 		}
@@ -372,4 +379,82 @@ func unexportedIface(t types.Type) bool {
 	}
 	_, isIface := n.Underlying().(*types.Interface)
 	return isIface
+}
+
+// paramSeam: prm is a parameter of an unexported top-level function that is only ever called directly, and every call
+// passes the same function constant (or a value of the same concrete library type for an interface-typed seam):
+// newBuilder(limit, afterFunc) with `schedule: schedule` inside makes the schedule field a seam to afterFunc.
+func (p *Program) paramSeam(prm *ssa.Parameter, ft types.Type, depth int) *seam {
+	f := prm.Parent()
+	if f == nil || f.Parent() != nil || depth > 2 || !p.InScope[f] {
+		return nil
+	}
+	if ast := f.Name(); ast == "" || (ast[0] >= 'A' && ast[0] <= 'Z') || f.Signature.Recv() != nil {
+		return nil
+	}
+	idx := -1
+	for i, q := range f.Params {
+		if q == prm {
+			idx = i
+		}
+	}
+	if idx < 0 {
+		return nil
+	}
+	if p.ctorCalls == nil {
+		p.ctorCalls = map[*ssa.Function][][]ssa.Value{}
+		p.fnAsValue = map[*ssa.Function]bool{}
+		for _, g := range p.Funcs {
+			for _, b := range g.Blocks {
+				for _, in := range b.Instrs {
+					var callee ssa.Value
+					if ci, isCall := in.(ssa.CallInstruction); isCall {
+						cc := ci.Common()
+						if sc := cc.StaticCallee(); sc != nil && !cc.IsInvoke() {
+							callee = cc.Value
+							p.ctorCalls[origin(sc)] = append(p.ctorCalls[origin(sc)], cc.Args)
+						}
+					}
+					for _, op := range in.Operands(nil) {
+						if op == nil || *op == nil || *op == callee {
+							continue
+						}
+						if fv, isF := (*op).(*ssa.Function); isF {
+							p.fnAsValue[origin(fv)] = true
+						}
+					}
+				}
+			}
+		}
+	}
+	calls := p.ctorCalls[origin(f)]
+	if len(calls) == 0 || p.fnAsValue[origin(f)] {
+		return nil
+	}
+	var res *seam
+	for _, args := range calls {
+		if idx >= len(args) {
+			return nil
+		}
+		a := stripConv(args[idx])
+		var sm *seam
+		switch x := a.(type) {
+		case *ssa.Function:
+			if len(x.FreeVars) == 0 {
+				sm = &seam{fn: origin(x)}
+			}
+		case *ssa.Parameter:
+			sm = p.paramSeam(x, ft, depth+1)
+		}
+		if sm == nil {
+			if _, isIface := ft.Underlying().(*types.Interface); isIface && inRepoConcrete(a.Type()) {
+				sm = &seam{typ: a.Type()}
+			}
+		}
+		if sm == nil || (res != nil && !res.same(sm)) {
+			return nil
+		}
+		res = sm
+	}
+	return res
 }
